@@ -231,6 +231,11 @@ def gen_folding():
                 t, e = (live, inner) if x == "1" else (inner, live)
                 out.append(P(d + DC, "r = %s ? %s : %s;" % (x, t, e), ("cfold6", x, inner, live)))
                 out.append(P(d + DC, "RdV = %s ? %s : %s; r = %s;" % (x, t, e, inner), ("cfold7", x, inner, live)))
+    # folded unary operators on constants at the upper end of their type (the result has to be spelled as a C constant)
+    for x in ["0xffffffff", "4294967295U", "0x80000000", "2147483648", "0xffffffffffffffff", "18446744073709551615U", "0x8000000000000000", "9223372036854775807"]:
+        for u in ["-", "~"]:
+            out.append(P(d, "r = %s%s;" % (u, x), ("foldu-big", u, x)))
+            out.append(P(d, "RddV = %s%s; r = a;" % (u, x), ("foldu-big-reg", u, x)))
     for t in T8:
         out.append(P([(t, "v", "input"), ("int64_t", "r", "local")], "r = sizeof(v) + v;", ("sizeof", t)))
     return out
@@ -426,6 +431,7 @@ STATIC_FINDINGS = [
     ("KF-const-cond-dead-arm", "wellformed", r"identifier '\w+' is not declared before use", const_cond_dead_identifier),
     ("KF-rw-operand-read-leak", "linearity", r"pure [A-Z][yz]{1,2}\w* is initialised but never used", lambda src: re.search(r"\b[A-Z][yz]{1,2}V\s*=[^=]", src) is not None),
     ("KF-const-cond-dead-arm", "linearity", r"pure \w+ is initialised but never used \(leak\)|pure \w+ is consumed 2 times without DUP", const_cond_dead_operand),
+    ("KF-unary-fold-unreduced", "wellformed", r"an integer constant does not fit any C integer type", lambda src: re.search(r"[-~]\s*(0[xX][0-9a-fA-F]+|\d+)", src) is not None),
     ("KF-unused-value-statement-leak", "linearity", r"pure \w+ is initialised but never used \(leak\)", unused_pure_statement_leak),
 ]
 
